@@ -259,6 +259,12 @@ package unite
 //@   ensures [*] result1 == nil ==> result0 != nil
 
 // API accessors (run by other goroutines)
+// Release (run by the consumer's goroutine) hands the lent slice back: one signal on the release channel.
+//@ event send dsc.release (v)
+//@ func (*Discipline).Release
+//@   requires [*] dsc != nil
+//@   modifies gClock
+
 //@ func (*Discipline).Output
 //@   requires [*] dsc != nil
 //@   ensures [* C03 C11] the-channel-the-discipline-delivers-on: result == dsc.output
